@@ -154,10 +154,10 @@ Definition fdepth_list (l : list cnode) : nat :=
     (one frame), the recursive branch calls the global *)
 Definition rec_direct : list cnode :=
   [CRun [CPrim; CChoice [CFrame (CRun [CPrim; CGlobal 0]); CFrame CPrim]]].
-(** `F ← |1 ⨬(⊙∘F-1|∘)=0.` : the call sits one more operand frame down (dip's operand is inlined by
-    the compiler or not: the tie tells) *)
+(** `F ← |1 ⨬(◌⊙F 0 -1|∘)=0.` : the call sits one more operand frame down (dip runs its operand as a
+    SigNode) *)
 Definition rec_dipped : list cnode :=
-  [CRun [CPrim; CChoice [CFrame (CRun [CPrim; CGlobal 0; CFrame CPrim]); CFrame CPrim]]].
+  [CRun [CPrim; CChoice [CFrame (CRun [CPrim; CPrim; CFrame (CGlobal 0); CPrim]); CFrame CPrim]]].
 Definition rec_main : cnode := CRun [CPrim; CGlobal 0].
 (** F n: n recursive choices, then the base case *)
 Definition rec_oracle (n : nat) : list nat := repeat 0 n ++ [1].
@@ -190,3 +190,17 @@ Fixpoint bheight (t : btree) : nat :=
   | BBox l => S ((fix go (l : list btree) : nat := match l with [] => 0 | x :: r => Nat.max (bheight x) (go r) end) l)
   end.
 Fixpoint box_chain (k : nat) : btree := match k with O => BLeaf | S k => BBox [box_chain k] end.
+
+(* ------------------------------------------------------------------ (d) tie programs for the signature checker *)
+From UV Require Import Model.Node Model.Sig.
+(** the IR of `F ← |1 ⊂1[⊂1[ ... ⊂1[1] ... ]]` with k brackets, as the compiler emits it (harness
+    `spine show`): the innermost literal is folded to a constant, every other level is
+    Array { inner: Run [level; Push 1; join] } *)
+Fixpoint arr_chain (j : nat) : node :=
+  match j with
+  | O => Push (SOpq 1)
+  | S j => Arr 1 (Run [arr_chain j; Push (SInt 1); Prim 1084 2 1]) false
+  end.
+Definition arr_prog (k : nat) : node :=
+  Run [arr_chain (k - 1); Push (SInt 1); Prim 1084 2 1; Mod MDip [(Sig 1 0 0 0, Prim 4 1 0)]].
+Definition arr_verdict (k : nat) : bool := match root_sig (arr_prog k) with Some _ => true | None => false end.
